@@ -249,6 +249,8 @@ pub struct World {
     pub mutation_fired: Option<String>,
     /// Wire length of every server frame encoded so far.
     pub frame_lens: Vec<usize>,
+    /// (schema version used, metadata included) of the most recent built-in Rows answer.
+    pub last_rows_answer: Option<(u32, bool)>,
 }
 
 static WORLD: Mutex<Option<World>> = Mutex::new(None);
@@ -296,6 +298,7 @@ pub fn install(cluster: Cluster, net: NetCfg, trace: bool) {
         mutation: None,
         mutation_fired: None,
         frame_lens: Vec::new(),
+        last_rows_answer: None,
     };
     *WORLD.lock().unwrap() = Some(w);
 }
